@@ -329,7 +329,7 @@ def run(chk: Check):
 
 def _has_empty_file(cl: dict) -> bool:
     """a file of the closure without any section (no imports, no items): an empty YAML document"""
-    return any(not f.get("missing") and not f.get("imports") and not f["items"] for f in cl["files"])
+    return any(not f.get("missing") and not f.get("imports") and not f["items"] and not f.get("options") for f in cl["files"])
 
 
 def _divides_by_zero(cl: dict) -> bool:
